@@ -61,6 +61,7 @@ class Driver:
         import hashlib
 
         h = hashlib.blake2b(repr(sorted(w.scenario.get("env", {}).items())).encode(), digest_size=2).digest()
+        self.poked = False
         self.early = h[0] % 2 == 0
         self.early_delay = (0.0, 1.0, 10.0, 100.0)[h[1] % 4]
 
@@ -187,7 +188,16 @@ class Driver:
         return True
 
     def after_complete(self, st):
-        return False
+        """Sometimes the user pokes a finished submission once more: it must stay complete, nothing
+        may be submitted (C05 / C09 monitors)."""
+        if self.poked or not self.early:
+            return False
+        self.poked = True
+        w = self.w
+        argv = ["jade", "try-submit-jobs", w.output] if self.early_delay < 5 else ["jade", "show-status", "-o", w.output, "-n"]
+        w.probe("poked_after_completion")
+        w.run_user_cmd(argv, tag="after_completion")
+        return True
 
 
 def execute(scenario, prof, seed, trace=None, then_generate=False, props=(), debug=False, keep=False,
